@@ -12,7 +12,7 @@ func init() {
 	register("C14", PropertyMeta{
 		Technique: "decision-table extraction over (len, cap) orderings for every Buffer method + escape audit of the backing slice",
 		Explanation: "Decides on queueing/buffer.go: CanPush is len<cap; PushTyped panics without storing iff len>=cap and otherwise appends its argument at the back; Pop/Peek return the zero value on an empty buffer and element 0 otherwise, Pop re-slicing from 1 after reading the head; " +
-			"UpdateFront is a no-op when empty and stores at index 0 otherwise; Restore rejects more elements than the capacity and copies its input; Clear empties; Size/Capacity read len/cap; no method hands out the backing slice itself nor any slice sharing its storage (a re-slice, or an append onto a slice of it with non-zero capacity — value-level over SSA).",
+			"UpdateFront is a no-op when empty and stores at index 0 otherwise; Restore rejects more elements than the capacity and copies its input; Clear empties; Size/Capacity read len/cap; no method hands out the backing slice itself nor any slice sharing its storage (a re-slice, or an append onto a slice of it with non-zero capacity — value-level over SSA). (unmarshal-capacity) Buffer.UnmarshalJSON compares the decoded element count with the decoded capacity.",
 		NotDecided:  "JSON round-trip symmetry (decided under C08); the property as a trace equivalence with a reference FIFO.",
 		Assumptions: []string{"Go slice semantics for append and re-slicing"},
 	}, runC14)
@@ -28,6 +28,7 @@ func init() {
 }
 
 func runC14(c *Ctx) {
+	unmarshalCapacityRule(c, "unmarshal-capacity")
 	p := c.P
 	dom := []int{0, 1, 2}
 	elF := c.field("anchors", "queueing", "Buffer", "elements")
